@@ -1441,6 +1441,71 @@ static void run_dot_sweep(Ctx& ctx) {
                     }
 }
 
+// Binary functions called with ONE OBJECT as both operands: the result must not depend on whether the two operands are the
+// same object or equal-valued separate arrays (dot(x, x), power(x, x), complex(x, x)); the value itself is judged as for two
+// different arrays (dot: sum x[i]*x[i] without conjugate is the library's convention; the Hermitian forms stay accepted for
+// the value, but the aliased and the non-aliased call must agree).
+static void run_aliased(Ctx& ctx) {
+    std::vector<int> ns;
+    for (int n = 0; n <= 64; ++n) ns.push_back(n);
+    for (int n : {65, 127, 129, 1001, 65537}) ns.push_back(n);
+    for (int n : ns)
+        for (int cplx = 0; cplx < 2; ++cplx)
+            for (int l = 0; l < 2; ++l)
+                for (int st = 0; st < 3; ++st) {
+                    if (!ctx.take("reduce.dot.alias", P().kv("type", cplx ? "cmplx" : "real").kv("n", n).kv("letter", l ? "lcg" : "index").kv("storage", STN[st]))) continue;
+                    if (n >= 1) ctx.nontrivial();
+                    std::vector<double> xr;
+                    std::vector<cmplx_t> xc;
+                    cld ref = 0, herm = 0;
+                    ld terms = 0;
+                    for (int i = 0; i < n; ++i) {
+                        const cmplx_t a = l ? cmplx_t(lcg_val(1730, (uint64_t)i) * 3, cplx ? lcg_val(1731, (uint64_t)i) * 2 : 0.0) : cmplx_t(0.5 * (i + 1), cplx ? 1.0 + (i % 5) : 0.0);
+                        xr.push_back(a.re);
+                        xc.push_back(a);
+                        const cld ca(a.re, a.im);
+                        ref += ca * ca;
+                        herm += std::conj(ca) * ca;
+                        terms += (fabsl(ca.real()) + fabsl(ca.imag())) * (fabsl(ca.real()) + fabsl(ca.imag()));
+                    }
+                    const double t = (n + 8) * EPS * (double)terms;
+                    cmplx_t ga, gc;
+                    if (cplx) {
+                        const arr_cmplx X = build_c(xc, st), X2 = build_c(xc, st);
+                        ga = d::dot(X, X);
+                        gc = d::dot(X, X2);
+                    } else {
+                        const arr_real X = build_r(xr, st), X2 = build_r(xr, st);
+                        ga = cmplx_t(d::dot(X, X), 0);
+                        gc = cmplx_t(d::dot(X, X2), 0);
+                    }
+                    const cld ca(ga.re, ga.im), cc(gc.re, gc.im);
+                    const double ea = std::min((double)std::abs(ca - ref), (double)std::abs(ca - herm)), ec = std::min((double)std::abs(cc - ref), (double)std::abs(cc - herm));
+                    if (!(ea <= t)) ctx.fail("dot", fmt("dot(x,x) (one object)=%s (n=%d)", cs(ga).c_str(), n), cs(ref) + fmt(" +- %.3g", t), P().kv("what", "value"));
+                    if (!(ec <= t)) ctx.fail("dot", fmt("dot(x,copy of x)=%s (n=%d)", cs(gc).c_str(), n), cs(ref) + fmt(" +- %.3g", t), P().kv("what", "value-copy"));
+                    if (!((double)std::abs(ca - cc) <= 2 * t))
+                        ctx.fail("dot", fmt("dot(x,x) with one object = %s but with an equal-valued copy = %s (n=%d)", cs(ga).c_str(), cs(gc).c_str(), n), "the same value (sum x[i]*x[i])", P().kv("what", "alias"));
+                }
+    // power(x, x) for real arrays (positive base) and complex(x, x)
+    for (int n : ns)
+        for (int st = 0; st < 3; ++st) {
+            if (!ctx.take("alias.power_complex", P().kv("n", n).kv("storage", STN[st]))) continue;
+            if (n >= 1) ctx.nontrivial();
+            std::vector<double> xr;
+            for (int i = 0; i < n; ++i) xr.push_back(0.5 + 0.25 * (i % 11));
+            const arr_real X = build_r(xr, st), X2 = build_r(xr, st);
+            const arr_real pa = d::power(X, X), pc = d::power(X, X2);
+            if (!bitsame(pa, pc)) ctx.fail("power", fmt("power(x,x) with one object differs from power(x,copy) (n=%d)", n), "identical", P().kv("what", "alias"));
+            bool ok = pa.size() == n;
+            for (int i = 0; ok && i < n; ++i) ok = units_r(pa[i], powl((ld)xr[(size_t)i], (ld)xr[(size_t)i])) <= CTOL;
+            if (!ok) ctx.fail("power", fmt("power(x,x) wrong (n=%d)", n), "x[i]^x[i]", P().kv("what", "value"));
+            const arr_cmplx za = d::complex(X, X), zc = d::complex(X, X2);
+            ok = za.size() == n && bitsame(za, zc);
+            for (int i = 0; ok && i < n; ++i) ok = biteq(za[i].re, xr[(size_t)i]) && biteq(za[i].im, xr[(size_t)i]);
+            if (!ok) ctx.fail("complex", fmt("complex(x,x) with one object wrong (n=%d)", n), "x[i] + i x[i]", P().kv("what", "alias"));
+        }
+}
+
 // ASan + UBSan pass over a reduced grid: every reduction, every element-wise array overload and the shape functions on
 // EXACT-FIT arrays of every length 0..64 (+ 255, 1000), each length in a forked child: a read or write past the end of
 // an array is reported by the sanitizer and becomes a violation of that case.  Values are checked in the main pass.
@@ -1521,6 +1586,7 @@ int main(int argc, char** argv) {
     run_power(ctx);
     run_reductions(ctx);
     run_dot_sweep(ctx);
+    run_aliased(ctx);
     run_shapes(ctx);
     return ctx.finish();
 }
